@@ -139,7 +139,11 @@ RejectedUpFront(c) ==
         \/ (Val(c, s, "latent_prior") \in {"s:gaussian", "s:uniform", "s:flow"}      \* configure_constant_volume
               /\ Val(c, s, "constant_volume_mode") = "b:T")
         \/ Val(c, s, "reparameterisations") = "j:bogus"
-        \/ Val(c, s, "fallback_reparameterisation") = "s:bogus"
+        \/ (Val(c, s, "fallback_reparameterisation") = "s:bogus"          \* only looked up for parameters
+              /\ Val(c, s, "reparameterisations") = "none")                \* without an explicit entry
+        \/ (Val(c, s, "ftype") = "s:maf" /\ Val(c, s, "linear_transform") # "none")      \* MAF takes no linear transform
+        \/ (Val(c, s, "flow_proposal_class") = "s:augmentedflowproposal"               \* the augment mask needs RealNVP
+              /\ Val(c, s, "ftype") \in {"s:maf", "s:nsf"})
     ELSE
         \/ Val(c, s, "stopping_criterion") = "s:bogus"                 \* configure_stopping_criterion
         \/ Val(c, s, "check_criteria") = "s:bogus"
